@@ -106,6 +106,11 @@ func (p *Plenc) CodecForTypeRegistry(registry plenccodec.CodecRegistry, typ refl
 
 	switch typ.Kind() {
 	case reflect.Ptr:
+		if typ.Elem().Kind() == reflect.Map {
+			// Map codecs are handed the map itself when writing, not a pointer
+			// to it, and the pointer wrapper cannot provide that
+			return nil, fmt.Errorf("pointers to maps are not supported")
+		}
 		subc, err := p.CodecForTypeRegistry(registry, typ.Elem(), tag)
 		if err != nil {
 			return nil, err
